@@ -10,7 +10,8 @@ Check (C19_analysis_fresh : forall cf pick disk rank fuel h w, good pick disk ra
   run cf pick disk fuel h = Ok w ->
   forall p f a, live_id w p = Some f -> w_an w f = Some a ->
     final_docs disk h p = Some (a_src a) /\ a_state a <> Typechecking /\
-    (a_state a = Typechecked -> same_diags (a_tdiags a) (expect_t (final_docs disk h) fuel p))).
+    (a_state a = Typechecked ->
+       same_diags (a_tdiags a) (expect_t (final_docs disk h) fuel p) /\ NoDup (a_tdiags a))).
 
 Check (C19_open_analysed : forall cf pick disk rank fuel h w, good pick disk rank fuel h ->
   run cf pick disk fuel h = Ok w ->
@@ -32,7 +33,7 @@ Check (C19_no_dup_no_stale : forall cf pick disk rank fuel h w, good pick disk r
   (purge_closed cf = true \/ no_close h) ->
   run cf pick disk fuel h = Ok w ->
   (forall p ds, w_pub w p = Some ds -> live_id w p <> None ->
-     same_diags ds (expect (final_docs disk h) fuel p)) /\
+     same_diags ds (expect (final_docs disk h) fuel p) /\ NoDup ds) /\
   (forall p, bufs_after no_bufs h p <> None -> w_pub w p <> None)).
 
 Check (C19_rev_imports_complete : forall cf pick disk rank fuel h w, good pick disk rank fuel h ->
